@@ -118,6 +118,29 @@ structure Fair (c : Cfg) (xs : Nat → XSt) (ls : Nat → Option Label) : Prop w
   blk : SF (xstep c) xs ls .hTakeBlk
   tx : SF (xstep c) xs ls .hTakeTx
 
+
+-- ------------------------------------------------------------------ the same, for plain runs of `fire`
+
+/-- a run of the protocol model itself: states of `MW.Model.Proto.fire` (fixed skeleton) and the labels taken -/
+structure IsRun (c : Cfg) (run : Nat → St) (ls : Nat → Option Label) : Prop where
+  init : Init c (run 0)
+  step : IsExec (fire .fixed c) run ls
+
+/-- the observers along a run: a function of the labels taken so far -/
+def obs (run : Nat → St) (ls : Nat → Option Label) : Nat → G
+  | 0 => ginit (run 0)
+  | i + 1 =>
+    match ls i with
+    | none => obs run ls i
+    | some l => gstep l (run i) (obs run ls i)
+
+/-- `Fair` for a plain run -/
+structure FairRun (c : Cfg) (run : Nat → St) (ls : Nat → Option Label) : Prop where
+  weak : ∀ l : Label, l.core = true → WF (fire .fixed c) run ls l
+  sus : SF (fire .fixed c) run ls .sus
+  blk : SF (fire .fixed c) run ls .hTakeBlk
+  tx : SF (fire .fixed c) run ls .hTakeTx
+
 /-- task `k` is in the queue or in the worker's hands -/
 def Pend (k : Nat) (g : G) : Prop := g.hand = some k ∨ k ∈ g.q
 
